@@ -126,6 +126,7 @@ type oracle struct {
 	record    bool // keep steps/frames (reference pass)
 	logFrames bool
 
+	guard     *guardDB
 	tx        int
 	stack     []*frame
 	codeOf    map[common.Address]*Code
@@ -163,6 +164,9 @@ func (o *oracle) fault(kind string) { o.faults[kind]++ }
 func (o *oracle) probe(name string) { o.probes[name]++ }
 
 func (o *oracle) report(class, format string, a ...interface{}) {
+	if o.guard != nil && o.guard.missed {
+		return // the observations of this pass are no longer closed (see guardDB)
+	}
 	o.r.Report(class, "[%s] %s", o.desc, fmt.Sprintf(format, a...))
 }
 
